@@ -497,9 +497,11 @@ def case_conf(case):
         mi = float(np.mean(C[i]))
         if abs(mi) > six * math.sqrt(v / N):
             viol.append(('conf:component-mean', f'{names[i]}: mean {mi:.3g} beyond six sigma {six * math.sqrt(v / N):.3g}'))
-        k4 = float(np.mean(C[i] ** 4)) / (3 * v * v)
-        if abs(k4 - 1) > six * math.sqrt(96 / N) / 3:
-            viol.append(('conf:not-gaussian-4th-moment', f'{names[i]}: E c^4/(3 sigma^4) = {k4:.4f}, band +-{six * math.sqrt(96 / N) / 3:.4f}'))
+        # sample kurtosis m4/m2^2 of a normal sample: mean 3, variance 24/N (normalised by the SAMPLE variance,
+        # so that a wrong power is reported under its own key only)
+        k4 = float(np.mean(C[i] ** 4)) / (3 * vi * vi) if vi > 0 else float('inf')
+        if abs(k4 - 1) > six * math.sqrt(24 / N) / 3:
+            viol.append(('conf:not-gaussian-4th-moment', f'{names[i]}: m4/(3 m2^2) = {k4:.4f}, band +-{six * math.sqrt(24 / N) / 3:.4f}'))
         l1 = float(np.mean(C[i][1:] * C[i][:-1])) / v
         if abs(l1) > six / math.sqrt(N - 1):
             viol.append(('conf:samples-correlated', f'{names[i]}: lag-1 correlation {l1:.4f}, band +-{six / math.sqrt(N - 1):.4f}'))
@@ -562,10 +564,10 @@ def run(ctx):
         confN = 2 ** 16
     else:
         Ns = [8, 16, 17, 64, 256]
-        Gs = [0, 1, 3, 10, 20, 30, 40]
-        NFs = [3, 4, 5, 7, 10]
+        Gs = [0, 1, 3, 10, 20, 40]
+        NFs = [3, 5, 7, 10]
         FS = [16e9, 40e9, 160e9]
-        BWs = [None, 0.1, 0.2, 0.4]
+        BWs = [None, 0.1, 0.2]
         conf_seeds = [1, 2, 3, 4, 5, 6, 7, 8]
         confN = 2 ** 17
     gvs = [(w, f) for w in WL for f in FS]
